@@ -800,6 +800,22 @@ func isLosslessBlendingPossible(src, dst *image.NRGBA, rect image.Rectangle) boo
 	return true
 }
 
+// increaseTransparency makes every pixel of the sub-frame sub (which covers
+// rect of the canvas) that is identical to the previous canvas fully
+// transparent. With alpha blending such a pixel then leaves the canvas
+// untouched, whereas blending a non-opaque pixel onto itself would raise its
+// alpha. Matches the C libwebp IncreaseTransparency step that accompanies
+// IsLosslessBlendingPossible.
+func increaseTransparency(prev *image.NRGBA, sub *image.NRGBA, rect image.Rectangle) {
+	for y := 0; y < rect.Dy(); y++ {
+		for x := 0; x < rect.Dx(); x++ {
+			if prev.NRGBAAt(rect.Min.X+x, rect.Min.Y+y) == sub.NRGBAAt(x, y) {
+				sub.SetNRGBA(x, y, color.NRGBA{})
+			}
+		}
+	}
+}
+
 // isLossyBlendingPossible checks whether alpha blending can correctly
 // reconstruct the target pixels in rect for lossy encoding. This is similar
 // to isLosslessBlendingPossible but uses a quality-dependent similarity
@@ -827,6 +843,22 @@ func isLossyBlendingPossible(src, dst *image.NRGBA, rect image.Rectangle, qualit
 		}
 	}
 	return true
+}
+
+// hasSemiTransparentPixel reports whether canvas has a pixel with
+// 0 < alpha < 255 inside rect. Blending such a pixel onto a similar canvas
+// pixel raises its alpha, and the alpha channel (coded losslessly also in
+// lossy mode) must be reproduced exactly, so lossy sub-frames containing one
+// are written without blending.
+func hasSemiTransparentPixel(canvas *image.NRGBA, rect image.Rectangle) bool {
+	for y := rect.Min.Y; y < rect.Max.Y; y++ {
+		for x := rect.Min.X; x < rect.Max.X; x++ {
+			if a := canvas.NRGBAAt(x, y).A; a != 0 && a != 0xFF {
+				return true
+			}
+		}
+	}
+	return false
 }
 
 // encodeSubFrame detects the bounding rectangle of changed pixels between the
@@ -865,12 +897,16 @@ func (e *AnimEncoder) encodeSubFrame(currCanvas *image.NRGBA, durMS int) error {
 			blendNone = BlendAlpha
 		}
 	} else {
-		if isLossyBlendingPossible(e.prevCanvas, currCanvas, rectNone, e.opts.Quality) {
+		if isLossyBlendingPossible(e.prevCanvas, currCanvas, rectNone, e.opts.Quality) &&
+			!hasSemiTransparentPixel(currCanvas, rectNone) {
 			blendNone = BlendAlpha
 		}
 	}
 
 	subImgNone := extractSubImage(currCanvas, rectNone)
+	if e.opts.Lossless && blendNone == BlendAlpha {
+		increaseTransparency(e.prevCanvas, subImgNone, rectNone)
+	}
 	bsNone, err := e.encodeFrame(subImgNone, e.opts.Lossless, e.opts.Quality)
 	if err != nil {
 		return fmt.Errorf("animation: encoding sub-frame (dispose-none): %w", err)
@@ -897,12 +933,16 @@ func (e *AnimEncoder) encodeSubFrame(currCanvas *image.NRGBA, durMS int) error {
 			blendBG = BlendAlpha
 		}
 	} else {
-		if isLossyBlendingPossible(prevDisposedCanvas, currCanvas, rectBG, e.opts.Quality) {
+		if isLossyBlendingPossible(prevDisposedCanvas, currCanvas, rectBG, e.opts.Quality) &&
+			!hasSemiTransparentPixel(currCanvas, rectBG) {
 			blendBG = BlendAlpha
 		}
 	}
 
 	subImgBG := extractSubImage(currCanvas, rectBG)
+	if e.opts.Lossless && blendBG == BlendAlpha {
+		increaseTransparency(prevDisposedCanvas, subImgBG, rectBG)
+	}
 	bsBG, err = e.encodeFrame(subImgBG, e.opts.Lossless, e.opts.Quality)
 	if err != nil {
 		// If encoding the BG candidate fails, fall through with DISPOSE_NONE.
